@@ -287,15 +287,18 @@ func runC17(c *fw.Ctx) {
 			if c.Next() {
 				c.Count("evaluations", 1)
 				body := strings.NewReplacer("\\", "\\\\", "\"", "\\\"").Replace(pre + s)
-				text := h.doc("\"" + body)
-				o := drv.RunMem("root.jst", text, opt)
-				start := strings.Index(text, "\""+body)
-				lineEnd := start + strings.IndexByte(text[start:], '\n')
-				if !o.Crashed() {
-					if !o.Rejected() {
-						c.Violate("unterminated-quote-accepted", "C17:unterminated:"+h.name, fmt.Sprintf("%s \"%s (no closing quote) is %s", h.name, body, o.Short()), map[string]interface{}{"text": text})
-					} else if o.Index < start || o.Index > lineEnd {
-						c.Violate("unterminated-quote-mislocated", "C17:unterminated-loc:"+h.name, fmt.Sprintf("%s \"%s: diagnostic at %d, the parameter spans %d..%d", h.name, body, o.Index, start, lineEnd), map[string]interface{}{"text": text})
+				// under every line-end convention: the quote is unterminated where its line ends
+				for _, nl := range []string{"\n", "\r\n", "\r"} {
+					text := strings.ReplaceAll(h.doc("\""+body), "\n", nl)
+					o := drv.RunMem("root.jst", text, opt)
+					start := strings.Index(text, "\""+body)
+					lineEnd := start + strings.IndexAny(text[start:], "\r\n")
+					if !o.Crashed() {
+						if !o.Rejected() {
+							c.Violate("unterminated-quote-accepted", "C17:unterminated:"+h.name, fmt.Sprintf("%s \"%s (no closing quote, line end %q) is %s", h.name, body, nl, o.Short()), map[string]interface{}{"text": text})
+						} else if o.Index < start || o.Index > lineEnd {
+							c.Violate("unterminated-quote-mislocated", "C17:unterminated-loc:"+h.name, fmt.Sprintf("%s \"%s (line end %q): diagnostic at %d, the parameter spans %d..%d", h.name, body, nl, o.Index, start, lineEnd), map[string]interface{}{"text": text})
+						}
 					}
 				}
 			}
